@@ -5,6 +5,9 @@ Inductive cstmt : Type :=
 | SDecl (name init : string)                              (* T name = init; *)
 | SExpr (e : string)                                      (* e; *)
 | SIfThen (cond : string) (body : list string)            (* if (cond) { body }   (no else) *)
+| SIfElse (cond : string) (thn els : list string)         (* if (cond) { thn } else { els } *)
+| SWhile (cond : string) (body : list cstmt)              (* while (cond) { body } *)
+| SReturn (e : string)                                    (* return e; *)
 | SFor (text : string)                                    (* a for statement, rendered *)
 | STry (body handler : list string) (catch_all : bool)    (* try { body } catch (...) { handler }   (one handler) *)
 | SOther (text : string).
